@@ -3,6 +3,7 @@
 pub mod big;
 pub mod dec;
 pub mod esr;
+pub mod lex488;
 pub mod list;
 pub mod mnemonic;
 pub mod path;
